@@ -604,6 +604,11 @@ class Family:
                     body[fname] = dflt["v"]
             if cd["extra"]:
                 body["Config"] = type("Config", (), {"extra": getattr(Extra, cd["extra"])})
+            if cd.get("plugin"):
+                # optional key (C13): the class carries an inner `Plugin` section, i.e. it is what
+                # `infer_parent` / `plugin_deps` regard as a (registrable) plugin; classes without
+                # it are plain intermediate schema classes
+                body["Plugin"] = type("Plugin", (), {"name": "vt.%s" % name.lower(), "version": (0, 1, 0)})
             cls = meta(name, (base,), body)
             if cd.get("mandatory"):
                 cls = D.make_mandatory(*cd["mandatory"])(cls)
